@@ -479,6 +479,10 @@ class HydrodynamicsTemplateModel:
         vpMax = min(
             self.cs2 / vw, vw
         )  # Follows from  v+max v- = 1/self.cs2, see page 6 of arXiv:1004.4187
+        if vpMax == vw:
+            # At vp = vw one has alpha_+ = 0, where wFromAlpha is singular when mu == nu
+            # (it returns sign(0) = 0 instead of the divergent enthalpy).
+            vpMax = vw * (1 - 1e-6)
         vpMin = 0
 
         # Change vpMin or vpMax in case wp is negative between vpMin and vpMax
